@@ -4,18 +4,30 @@
 (* (openapi3gen.go generateWithoutSaving / generateCycleSchemaRef,         *)
 (* field_info.go appendFields, type_info.go getTypeInfo,                   *)
 (* NewSchemaRefForValue's copy loop) for every option set of the catalogue:*)
-(*  - pointers are stripped, nullable = "was a pointer and is not the root"*)
+(*  - pointers (named pointer types too) are stripped, nullable = "was a   *)
+(*    pointer and is not the root"; a defined type is described by its     *)
+(*    kind (type NI8 int8 -> the int8 schema)                              *)
+(*  - a field with the "string" tag option whose type encoding/json quotes *)
+(*    (GoTypes!Quotable) becomes {type: string} (nullable kept); elsewhere *)
+(*    the option is ignored                                                *)
+(*  - unexported fields are skipped, except that untagged embedded structs *)
+(*    are expanded whatever their name; an untagged embedded non-struct    *)
+(*    is dropped (appendFields returns at once on a non-struct)            *)
 (*  - the kind switch (type, format, minimum, maximum per Go kind)         *)
 (*  - fields: appendFields order, untagged embedded struct(-pointer)s      *)
 (*    expanded in place, sorted by JSON name, only tagged ones unless      *)
 (*    UseAllExportedFields; a later entry of the same name overwrites      *)
 (*  - the table Go type -> finished schema (Generator.Types) is consulted  *)
 (*    first, before the cycle check                                        *)
-(*  - a declared type met again on the parent chain is cut: the position   *)
-(*    becomes a bare $ref to the component of that name (nullable is not   *)
-(*    carried); the reference object carries, as its value, the schema of  *)
-(*    the struct in whose field loop the cut happened (not of the type it  *)
-(*    names)                                                               *)
+(*  - a type (of any kind, pointers stripped) met again on the parent      *)
+(*    chain is cut: generateCycleSchemaRef unwraps pointers, slices and    *)
+(*    maps -- named ones too -- down to the struct below them and the      *)
+(*    position becomes array-of / object-of a bare $ref to the component   *)
+(*    of that struct (nullable is not carried); when the cut type is the   *)
+(*    struct itself the reference object carries, as its value, the schema *)
+(*    of the struct in whose field loop the cut happened (not of the type  *)
+(*    it names).  The unwrapping does not end on a container type that is  *)
+(*    its own element (type Tree []Tree): Diverges                         *)
 (*  - with component export every struct below the root (the root too with *)
 (*    ExportTopLevelSchema) becomes a reference to the component named by  *)
 (*    the (caller's) type-name function; a struct whose component name is  *)
@@ -29,6 +41,17 @@
 (*    gives the set of candidates per name                                 *)
 (*  - appendFields does not terminate on a struct that embeds a pointer to *)
 (*    itself (Diverges)                                                    *)
+(*  - option sets "throw" (ThrowErrorOnCycle: the first cut aborts the     *)
+(*    whole generation with a CycleError; the model records that a cut     *)
+(*    happened, st.cyc) and "custom" (a SchemaCustomizer that changes      *)
+(*    nothing: its presence switches the type table off, l.166)            *)
+(*  - a Generator that is used again (history of two NewSchemaRefForValue  *)
+(*    calls): the type table and the registered component names stay; the  *)
+(*    epilogue of the first call has cleared the name of every reference   *)
+(*    object that is not a component reference and the value of every one  *)
+(*    that is (l.146-150), so none of them can be stored into a component  *)
+(*    map again: the second call only stores what it generates anew        *)
+(*    (Carry, GenHist)                                                     *)
 (* MC_C18 checks this model against the contract (GoSchema!Accepts on      *)
 (* every GoTypes!Enc encoding); the trace specification compares it with   *)
 (* what the real generator returned (fidelity warnings).                   *)
@@ -36,7 +59,7 @@
 EXTENDS GoSchema
 
 RECURSIVE StripP(_)
-StripP(t) == IF t.k = "ptr" THEN StripP(t.e) ELSE t
+StripP(t) == IF U(t).k = "ptr" THEN StripP(U(t).e) ELSE t
 
 (* maximum of uint64 as the library renders it: float64(MaxUint64) = 2^64 is written as *)
 (* 18446744073709552000, which lies above the point 2^64                                 *)
@@ -69,7 +92,9 @@ AppendFields(ST, x, seen) ==
                     THEN LET it == IF fd.t.k = "ptr" THEN fd.t.e ELSE fd.t IN
                          IF it.k = "named" /\ it.n \in seen THEN <<>>
                          ELSE AppendFields(StructOf(it), 1, IF it.k = "named" THEN seen \cup {it.n} ELSE seen)
-                    ELSE <<[name |-> JsonName(fd), tagged |-> Has(fd, "j"), t |-> fd.t]>>
+                    ELSE IF Has(fd, "emb") /\ ~Has(fd, "j") THEN <<>>     \* untagged embedded non-struct: dropped
+                    ELSE IF Has(fd, "x") THEN <<>>                        \* unexported
+                    ELSE <<[name |-> JsonName(fd), tagged |-> Has(fd, "j"), t |-> fd.t, qs |-> Quoted(fd)]>>
         IN here \o AppendFields(ST, x + 1, seen)
 
 (* a struct whose untagged embedded struct(-pointer) fields lead back to itself *)
@@ -79,7 +104,15 @@ EmbedsBack(ST, target, hops) ==
       /\ Flattens(ST.f[x])
       /\ LET it == IF ST.f[x].t.k = "ptr" THEN ST.f[x].t.e ELSE ST.f[x].t IN
          it.k = "named" /\ (it.n = target \/ EmbedsBack(Defs(it.n), target, hops - 1))
-Diverges(T) == \E n \in ReachNames(T) : EmbedsBack(Defs(n), n, 3)
+(* the struct a cycle reference to t names: pointers, slices and maps (named or not) unwrapped; *)
+(* a container that only ever reaches containers has none                                       *)
+RECURSIVE CycleTargetH(_, _)
+CycleTargetH(t, hops) ==
+   LET u == U(t) IN
+   IF u.k \in {"ptr", "slice", "map"} THEN (IF hops = 0 THEN [k |-> "none"] ELSE CycleTargetH(u.e, hops - 1)) ELSE t
+CycleTarget(t) == CycleTargetH(t, 8)
+SelfContainer(T) == \E n \in ReachNames(T) : U(Named(n)).k \in {"slice", "map"} /\ CycleTarget(Named(n)).k = "none"
+Diverges(T) == (\E n \in ReachNames(T) : Defs(n).k = "struct" /\ EmbedsBack(Defs(n), n, 3)) \/ SelfContainer(T)
 
 WithNullable(s, nullable) ==
    IF ~nullable THEN s ELSE IF DOMAIN s = {} THEN [nullable |-> TRUE] ELSE [nullable |-> TRUE] @@ s
@@ -88,6 +121,14 @@ ExportsComponents(opt) == opt \in {"export", "exporttop", "useall_export", "tng_
 ExportsTop(opt) == opt \in {"exporttop", "tng_exporttop"}
 UsesAllFields(opt) == opt \in {"useall", "useall_export"}
 GoNameOf(b) == IF b.k = "named" THEN b.n ELSE ""          \* reflect.Type.Name()
+(* generateCycleSchemaRef *)
+RECURSIVE CycleSchema(_, _)
+CycleSchema(name, t) ==
+   LET u == U(t) IN
+   CASE u.k = "ptr"   -> CycleSchema(name, u.e)
+     [] u.k = "slice" -> [type |-> "array", items |-> CycleSchema(name, u.e)]
+     [] u.k = "map"   -> [type |-> "object", apSchema |-> CycleSchema(name, u.e)]
+     [] OTHER         -> [ref |-> name]
 
 (* Generator state threaded through the depth-first generation:                                  *)
 (*   c    - Generator.Types: Go type -> finished result (consulted before anything else, in      *)
@@ -98,12 +139,13 @@ GoNameOf(b) == IF b.k = "named" THEN b.n ELSE ""          \* reflect.Type.Name()
 (*          of the type the name stands for), val]                                                *)
 (* GenC returns [s, st]; s = [cycle |-> n] when the type is a declared type on the parent chain   *)
 (* (a failed generation is not cached).                                                           *)
-EmptySt == [c |-> {}, csr |-> {}, cand |-> {}]
+EmptySt == [c |-> {}, csr |-> {}, cand |-> {}, cyc |-> FALSE]
 CacheHit(cache, T) == \E e \in cache : e.t = T
 CacheGet(cache, T) == (CHOOSE e \in cache : e.t = T).s
-AsSub(opt, g) == IF Has(g, "cycle") THEN [ref |-> TypeNameOf(opt, g.cycle)] ELSE g
-(* generateCycleSchemaRef registers the component name of the type it cuts at *)
-AfterChild(opt, x) == IF Has(x.s, "cycle") THEN [x.st EXCEPT !.csr = @ \cup {TypeNameOf(opt, x.s.cycle)}] ELSE x.st
+CycleName(opt, t) == TypeNameOf(opt, GoNameOf(CycleTarget(t)))
+AsSub(opt, g) == IF Has(g, "cycle") THEN CycleSchema(CycleName(opt, g.cycle), g.cycle) ELSE g
+(* generateCycleSchemaRef registers the component name of the struct it ends at *)
+AfterChild(opt, x) == IF Has(x.s, "cycle") THEN [x.st EXCEPT !.csr = @ \cup {CycleName(opt, x.s.cycle)}, !.cyc = TRUE] ELSE x.st
 
 (* candidate fields in the order the generator visits them: sorted by JSON name, ties in *)
 (* appendFields order (sort.Sort on at most 12 elements is an insertion sort)              *)
@@ -113,29 +155,32 @@ VisitOrder(es, used) ==
 
 RECURSIVE GenC(_, _, _, _, _), GenFields(_, _, _, _, _, _, _, _)
 (* visit the fields order[i..]; acc = the (name, schema) pairs so far, cuts = the declared *)
-(* types cut in this struct's own field loop                                               *)
+(* structs cut (directly, not below a container) in this struct's own field loop: only     *)
+(* those reference objects are counted in Generator.SchemaRefs                             *)
+QuoteSchema(s) == IF Has(s, "nullable") THEN [type |-> "string", nullable |-> TRUE] ELSE [type |-> "string"]
 GenFields(order, i, es, parents, opt, st, acc, cuts) ==
    IF i > Len(order) THEN [acc |-> acc, st |-> st, cuts |-> cuts]
    ELSE LET e == es[order[i]]
             r == GenC(e.t, parents, FALSE, opt, st)
         IN GenFields(order, i + 1, es, parents, opt, AfterChild(opt, r),
-                     Append(acc, [name |-> e.name, s |-> AsSub(opt, r.s)]),
-                     IF Has(r.s, "cycle") THEN cuts \cup {r.s.cycle} ELSE cuts)
+                     Append(acc, [name |-> e.name, s |-> IF e.qs THEN QuoteSchema(AsSub(opt, r.s)) ELSE AsSub(opt, r.s)]),
+                     IF Has(r.s, "cycle") /\ U(r.s.cycle).k = "struct" THEN cuts \cup {GoNameOf(r.s.cycle)} ELSE cuts)
 
 GenC(T, parents, root, opt, st) ==
-   IF CacheHit(st.c, T) THEN [s |-> CacheGet(st.c, T), st |-> st]
+   IF opt # "custom" /\ CacheHit(st.c, T) THEN [s |-> CacheGet(st.c, T), st |-> st]
    ELSE
    LET b == StripP(T)
-       nullable == T.k = "ptr" /\ ~root
+       u == U(b)
+       nullable == U(T).k = "ptr" /\ ~root
        cached(s, st2) == [s |-> s, st |-> [st2 EXCEPT !.c = @ \cup {[t |-> T, s |-> s]}]] IN
-   IF b.k = "named" /\ b.n \in parents THEN [s |-> [cycle |-> b.n], st |-> st]
-   ELSE LET ps2 == IF b.k = "named" THEN parents \cup {b.n} ELSE parents IN
-   CASE b.k \in BaseKinds -> cached(WithNullable(KindSchema(b.k), nullable), st)
-     [] b.k = "slice" -> LET x == GenC(b.e, ps2, FALSE, opt, st) IN
+   IF b \in parents THEN [s |-> [cycle |-> b], st |-> st]
+   ELSE LET ps2 == parents \cup {b} IN
+   CASE u.k \in BaseKinds -> cached(WithNullable(KindSchema(u.k), nullable), st)
+     [] u.k = "slice" -> LET x == GenC(u.e, ps2, FALSE, opt, st) IN
                          cached(WithNullable([type |-> "array", items |-> AsSub(opt, x.s)], nullable), AfterChild(opt, x))
-     [] b.k = "map"   -> LET x == GenC(b.e, ps2, FALSE, opt, st) IN
+     [] u.k = "map"   -> LET x == GenC(u.e, ps2, FALSE, opt, st) IN
                          cached(WithNullable([type |-> "object", apSchema |-> AsSub(opt, x.s)], nullable), AfterChild(opt, x))
-     [] b.k \in {"struct", "named"} ->
+     [] u.k = "struct" ->
           LET tn == TypeNameOf(opt, GoNameOf(b)) IN
           IF ExportsComponents(opt) /\ tn \in st.csr
           THEN cached([ref |-> tn], st)               \* l.335: already a component, not generated again
@@ -157,7 +202,14 @@ GenC(T, parents, root, opt, st) ==
                                       !.cand = @ \cup {mine} \cup held])
 
 GenAll(T, opt) == GenC(T, {}, TRUE, opt, EmptySt)
+(* the generator state a second call starts from *)
+Carry(st) == [st EXCEPT !.cand = {}, !.cyc = FALSE]
+GenHist(T1, T2, opt) == GenC(T2, {}, TRUE, opt, Carry(GenAll(T1, opt).st))
+NoFirst == [k |-> "nofirst"]
+ModelRun(Fst, T, opt) == IF Fst.k = "nofirst" THEN GenAll(T, opt) ELSE GenHist(Fst, T, opt)
 GenRoot(T, opt) == GenAll(T, opt).s
+(* does generation meet a cycle (with ThrowErrorOnCycle: does it fail with a CycleError)? *)
+ModelCycles(T, opt) == GenAll(T, opt).st.cyc
 
 (* NewSchemaRefForValue l.136-148: the objects whose value may be stored under component name k *)
 Matches(opt, c, k) == Has(c.val, "pk") /\ c.name = k /\ (c.pref => ExportsComponents(opt))
@@ -170,11 +222,15 @@ RECURSIVE SetToSeq(_)
 SetToSeq(S) == IF S = {} THEN <<>> ELSE LET x == CHOOSE x \in S : TRUE IN <<x>> \o SetToSeq(S \ {x})
 (* the component map when every name receives the schema of its own type -- the least favourable *)
 (* such candidate (not nullable) if there are several                                            *)
-GenComps(T, opt) ==
-   LET st == GenAll(T, opt).st
-       ks == SetToSeq({k \in CompKeys(opt, st) : \E c \in CompCands(opt, st, k) : c.own})
+GenCompsSt(st, opt) ==
+   LET ks == SetToSeq({k \in CompKeys(opt, st) : \E c \in CompCands(opt, st, k) : c.own})
        pick(k) == LET cs == {c.val : c \in {c \in CompCands(opt, st, k) : c.own}}
                       strict == {c \in cs : ~Has(c, "nullable")} IN
                   IF strict # {} THEN CHOOSE c \in strict : TRUE ELSE CHOOSE c \in cs : TRUE
    IN [k |-> ks, v |-> [i \in DOMAIN ks |-> pick(ks[i])]]
+GenComps(T, opt) == GenCompsSt(GenAll(T, opt).st, opt)
+(* a component map into which a second call has stored its components (overwriting) *)
+MergeComps(c1, c2) ==
+   LET ks == SetToSeq(Range(c1.k) \cup Range(c2.k)) IN
+   [k |-> ks, v |-> [i \in DOMAIN ks |-> IF HasComp(c2, ks[i]) THEN Comp(c2, ks[i]) ELSE Comp(c1, ks[i])]]
 =============================================================================
